@@ -93,25 +93,31 @@ TimePoints == {t \in UNION {{d - 1, d, d + 1} : d \in Deadlines} : t > w.now /\ 
 
 ---------------------------------------------------------------------------
 \* ------------------------------------------------------------------ one step
-\* a digest of the predicted successor, compared by the harness on EVERY replayed transition
+\* The predicted successor and emitted messages, compared by the harness on EVERY replayed transition
+\* (set-valued components are compared as sets). Only configuration and ledgers are left out.
 SumOver(S, F(_)) == MapThenSumSet(F, S)
+MsgDigest(m) ==
+  CASE m.k = "oracle" -> <<m.k, m.red, m.pur, m.to>>
+    [] m.k = "send"   -> <<m.k, m.den, m.amt, m.to>>
+    [] m.k = "ibc"    -> <<m.k, m.den, m.amt, m.rcv, m.seq>>
+    [] m.k = "tf_mint" -> <<m.k, m.den, m.amt, m.to>>
+    [] m.k = "tf_burn" -> <<m.k, m.den, m.amt, m.from>>
+    [] OTHER -> <<m.k>>
 Digest(r) ==
   LET x == r.w IN
-  <<r.ok, x.c.stopped, x.c.N, x.c.L, x.c.fees, x.c.rewards, x.c.pend, Len(x.c.batches),
-    SumOver(BatchIds(x.c), LAMBDA b : StatusRank(x.c.batches[b].status)),
-    SumOver(BatchIds(x.c), LAMBDA b : x.c.batches[b].expected),
-    SumOver(BatchIds(x.c), LAMBDA b : x.c.batches[b].received),
-    SumOver(BatchIds(x.c), LAMBDA b : x.c.batches[b].total),
-    SumOver(BatchIds(x.c), LAMBDA b : x.c.batches[b].due % 1000),
-    SumOver(x.c.reqs, LAMBDA q : q.amt), Cardinality(x.c.reqs),
-    Cardinality(x.c.pk), SumOver({p \in x.c.pk : p.status = "sent"}, LAMBDA p : p.amt),
-    SumOver({p \in x.c.pk : Refundable(p)}, LAMBDA p : p.amt),
-    Bal(x.bank, Contract, NatD), Bal(x.bank, Contract, LstD),
-    SumOver({k \in DOMAIN x.bank : k[1] # Contract /\ k[2] = NatD}, LAMBDA k : x.bank[k]),
-    SumOver({k \in DOMAIN x.bank : k[1] # Contract /\ k[2] = LstD}, LAMBDA k : x.bank[k]),
-    x.sup, x.ibc.next, Cardinality(x.ibc.fly),
-    SumOver(DOMAIN x.nat.bal, LAMBDA a : x.nat.bal[a]), SumOver(DOMAIN x.nat.lst, LAMBDA a : x.nat.lst[a]),
-    x.now % 1000, x.led.swept, x.led.deliv, x.c.admin, x.c.pending>>
+  [ok |-> r.ok,
+   s |-> <<x.c.stopped, x.c.N, x.c.L, x.c.fees, x.c.rewards, x.c.pend, x.c.admin, x.c.pending, x.sup, x.ibc.next,
+           x.now % 100000, x.led.swept, x.led.deliv>>,
+   b |-> [i \in DOMAIN x.c.batches |-> <<x.c.batches[i].total, x.c.batches[i].expected, x.c.batches[i].received,
+                                          x.c.batches[i].cnt, IF x.c.batches[i].due = NoAmt THEN NoAmt ELSE x.c.batches[i].due % 100000,
+                                          x.c.batches[i].status>>],
+   q |-> {<<q.b, q.u, q.amt>> : q \in x.c.reqs},
+   p |-> {<<p.seq, p.den, p.amt, p.rcv, p.status>> : p \in x.c.pk},
+   f |-> {<<p.seq, p.den, p.amt, p.rcv>> : p \in x.ibc.fly},
+   k |-> {<<k[1], k[2], x.bank[k]>> : k \in {j \in DOMAIN x.bank : x.bank[j] # 0}},
+   n |-> {<<a, x.nat.bal[a]>> : a \in {j \in DOMAIN x.nat.bal : x.nat.bal[j] # 0}},
+   l |-> {<<a, x.nat.lst[a]>> : a \in {j \in DOMAIN x.nat.lst : x.nat.lst[j] # 0}},
+   m |-> [i \in DOMAIN r.msgs |-> MsgDigest(r.msgs[i])]]
 Do(call) ==
   LET r == Exec(w, call) IN
   /\ w' = r.w
